@@ -127,11 +127,21 @@ def run_b2(family, progs, steps, seed, nproc=8, tool="ksgen", extra=()):
             # value looks like in memory (spare capacity, aliasing with a read buffer) is part of what is tested
             cmd += ["-mode", "pipe", "-nononce"]
         jobs.append((path, cmd))
-    for path, cmd in jobs:
+    deaths = []
+    for path, cmd in list(jobs):
         p = subprocess.run(cmd, stdout=subprocess.PIPE, stderr=subprocess.STDOUT, text=True, timeout=600)
         if p.returncode != 0:
+            if "-mode" in cmd and ("panic:" in p.stdout or "fatal error:" in p.stdout):
+                # programmes sent through the real connection handler: a panic in an executor is not recovered there (nor in
+                # the server), so the process dies - that is a finding about the code, not about the generator
+                lines = [l for l in p.stdout.splitlines() if l.strip()]
+                first = next((l for l in lines if l.startswith("panic:") or l.startswith("fatal error:")), lines[0] if lines else "")
+                site = next((l.strip().split(" +0x")[0].replace(common.REPO + "/", "") for l in lines if common.REPO + "/" in l and "verif" not in l), "unknown")
+                deaths.append({"first_line": first[:200], "site": site, "cmd": " ".join(cmd[1:]), "tail": p.stdout[-1500:]})
+                jobs.remove((path, cmd))
+                continue
             common.die_infra("generator failed: %s\n%s" % (" ".join(cmd), p.stdout[-2000:]))
-    out = {"mismatches": [], "labels": set(), "events": 0, "programmes": per * nproc, "states": 0}
+    out = {"mismatches": [], "labels": set(), "events": 0, "programmes": per * len(jobs), "states": 0, "deaths": deaths}
     with concurrent.futures.ThreadPoolExecutor(max_workers=nproc) as ex:
         for (path, _), r in zip(jobs, ex.map(lambda j: validate_trace(j[0]), jobs)):
             out["labels"] |= r["labels"]
@@ -278,6 +288,9 @@ def family_check(prop, tier, b1_instances, b2_families, level_text, assumptions,
                 foreign[sig["branch"]] = foreign.get(sig["branch"], 0) + 1
                 continue
             v.report(sig, replay_of(m, path), what=explain(m, path))
+        for dth in r.get("deaths", []):
+            v.report({"branch": "handler.process", "kind": "process-death", "detail": dth["site"][:80]}, dth,
+                     what="the process died while random %s programmes were sent through the connection handler: %s at %s" % (fam, dth["first_line"], dth["site"]))
         if r["programmes"] and not cov["samples"]:
             pass
         # one sample programme (first of the first file)
